@@ -70,6 +70,7 @@ def run(chk):
             rule_outer(chk, aab, pd)
     rule_params(chk)
     rule_lang_slot_eval(chk)
+    rule_group_index_eval(chk)
     rule_source(chk)
 
 
@@ -236,6 +237,52 @@ def rule_lang_slot_eval(chk):
             continue
         chk.ob("C06.lang/" + key, key not in bad, bad.get(key) or "every global gets the binding of its own declarator", where(fn), sample={"case": key})
     chk.floor("C06.floor/lang-slot-cases", n, 100, "global variable statements evaluated", where(fn))
+    return True
+
+
+def rule_group_index_eval(chk):
+    """Where a binding is reported: both exporters' register_binding (and the Metal layout's finish) walked on sequences
+    of registrations into groups {0}, {2}, {0, 2}, {1, 3, 1}: afterwards bind_groups[g] holds exactly the bindings that
+    were registered for group g, in registration order, and groups in between exist and are empty - the index into
+    bind_groups IS the group number the emitted source binds (register space / argument buffer index)."""
+    import interp as I
+    f = chk.facts
+    hreg = f.fn("register_binding", "rssl_hlsl")
+    mreg = f.fn("register_binding", "rssl_msl")
+    mfin = f.fn("finish", "rssl_msl", self_ty="PipelineBindingLayout")
+    if not (hreg and mreg and mfin):
+        return False
+    B = lambda n: I.Enum("DescriptorBinding", None, {"name": n})
+    seqs = {"group 0": [(0, "a"), (0, "b")], "group 2 only": [(2, "a"), (2, "b")], "groups 0 and 2": [(0, "a"), (2, "b"), (0, "c")], "groups 1, 3, 1": [(1, "a"), (3, "b"), (1, "c")]}
+    for tgt in ("hlsl", "msl"):
+        bad = None
+        for sname, seq in seqs.items():
+            ip = I.Interp(f, max_depth=8)
+            try:
+                if tgt == "hlsl":
+                    ctx = I.Enum("GenerateContext", None, {"pipeline_description": I.Enum("PipelineDescription", None, {"bind_groups": []})})
+                    for g, n in seq:
+                        ip.apply(hreg, [ctx, g, B(n)])
+                    groups = ctx.fields["pipeline_description"].fields["bind_groups"]
+                else:
+                    lay = I.Enum("PipelineBindingLayout", None, {"0": []})
+                    for k, (g, n) in enumerate(seq):
+                        ip.apply(mreg, [lay, g, B(n), I.Enum("GlobalId", None, {"0": k})])
+                    groups = ip.apply(mfin, [lay]).fields["bind_groups"]
+            except I.Unknown as e:
+                if "panicking" in str(e):
+                    bad = bad or "registering bindings for %s aborts (%s)" % (sname, str(e)[:60])
+                    continue
+                chk.note("C06.groups: %s register_binding / finish is not readable (%s)" % (tgt, str(e)[:80]))
+                return False
+            got = [[b.fields["name"] for b in (g_.fields["bindings"] if isinstance(g_, I.Enum) else [])] for g_ in groups]
+            want = [[] for _ in range(max(g for g, _n in seq) + 1)]
+            for g, n in seq:
+                want[g].append(n)
+            if got != want and not bad:
+                bad = "after registering %s, the %s metadata has bind_groups = %s, must be %s: a resource is reported in another group than the one the emitted source binds it in" % (
+                    ["%s in group %d" % (n, g) for g, n in seq], tgt.upper(), got, want)
+        chk.ob("C06.groups/" + tgt, bad is None, bad or "bind_groups[g] holds the bindings of group g for every sequence", where(hreg if tgt == "hlsl" else mfin), sample={"target": tgt, "sequences": len(seqs)})
     return True
 
 
